@@ -267,6 +267,16 @@ impl P16E1 {
     }
 }
 
+/// Verification hook (only with `--cfg softposit_verif`): exposes the private helper behind `Standard`
+/// sampling so that the model of `sub_one` can be compared with the code on every input.
+#[cfg(all(softposit_verif, any(feature = "rand", test)))]
+impl P16E1 {
+    #[doc(hidden)]
+    pub fn verif_sub_one(ui_a: u32) -> Self {
+        Self::sub_one(ui_a)
+    }
+}
+
 impl crate::RawPosit for P16E1 {
     type UInt = u16;
     type Int = i16;
